@@ -171,6 +171,9 @@ func (d *Decls) structName(t types.Type) string {
 }
 
 func fieldAcc(sname string, i int, name string) string {
+	if name == "_" {
+		name = fmt.Sprintf("_%d", i)
+	}
 	return q(fmt.Sprintf("%s.%s", sname, name))
 }
 
